@@ -72,6 +72,22 @@ pub fn run(tier: Tier, replay: Option<String>) -> i32 {
     };
     if let Some(p) = replay {
         let j = vcommon::read_json(std::path::Path::new(&p));
+        if j["kind"] == "protocol" {
+            let steps: Vec<(u8, usize)> = j["schedule"].as_array().map(|a| a.iter().map(|s| (s[0].as_u64().unwrap_or(0) as u8, s[1].as_u64().unwrap_or(1) as usize)).collect()).unwrap_or_default();
+            let input = vcommon::unhex(j["input"].as_str().unwrap_or(""));
+            return match crate::c14::protocol_replay(j["family"].as_str().unwrap_or(""), j["version"].as_u64().unwrap_or(8) as u8, &input, Schedule { steps }) {
+                None => 2,
+                Some(Ok(())) => {
+                    println!("replay: blocking, tokio and async-std protocol readers agree");
+                    0
+                }
+                Some(Err(m)) => {
+                    println!("VIOLATION property=C06 replay={}", p);
+                    println!("  {}", m);
+                    1
+                }
+            };
+        }
         let frame = vcommon::unhex(j["frame"].as_str().unwrap_or(""));
         let steps: Vec<(u8, usize)> = j["schedule"].as_array().map(|a| a.iter().map(|s| (s[0].as_u64().unwrap_or(0) as u8, s[1].as_u64().unwrap_or(1) as usize)).collect()).unwrap_or_default();
         let sched = Schedule { steps };
@@ -89,7 +105,7 @@ pub fn run(tier: Tier, replay: Option<String>) -> i32 {
             }
         };
     }
-    c.rule = "for every login message x protocol version and for the world opcode-enum readers (header + body): canonical encodings (directed enumeration) and malformed variants (truncations, bad enums, bad UTF-8, bad lengths from the C03 corruption set) are delivered through a scripted transport the harness owns: all 2^(n-1) chunk compositions for frames up to 12 bytes (with 0 and 1 Pending before every chunk), and for longer frames single-byte delivery, halves, a cut inside every multi-byte field, and proptest-drawn cut sets with Pending counts. Oracle: the tokio and async-std readers return what the blocking reader returns on the whole buffer (same value and bytes consumed, or an error of the same kind / same enum number); the three writers emit identical bytes through a sink accepting partial writes. Non-trivial = schedule with >= 2 chunks or >= 1 Pending; distinct = (endpoint, message, frame shape, schedule shape).".into();
+    c.rule = "for every login message x protocol version and for the world opcode-enum readers (header + body): canonical encodings (directed enumeration) and malformed variants (truncations, bad enums, bad UTF-8, bad lengths from the C03 corruption set) are delivered through a scripted transport the harness owns: all 2^(n-1) chunk compositions for frames up to 12 bytes (with 0 and 1 Pending before every chunk), and for longer frames single-byte delivery, halves, a cut inside every multi-byte field, and proptest-drawn cut sets with Pending counts. Oracle: the tokio and async-std readers return what the blocking reader returns on the whole buffer (same value and bytes consumed, or an error of the same kind / same enum number); the three writers emit identical bytes through a sink accepting partial writes; the protocol-parameterised login readers (expect_*_message_protocol, 15 families x protocol versions) on canonical encodings and their truncations: tokio and async-std against the blocking one under all compositions (inputs up to 9 bytes) or whole / single-byte / halves / a cut after each of the first 48 bytes. Non-trivial = schedule with >= 2 chunks or >= 1 Pending; distinct = (endpoint, message, frame shape, schedule shape).".into();
     c.assume("futures are driven by a single-threaded poll loop with a counting waker; a future that returns Pending without arranging a wake-up is reported as a stall");
     let seed = c.seed;
     let forced0 = BTreeMap::new();
@@ -303,6 +319,22 @@ pub fn run(tier: Tier, replay: Option<String>) -> i32 {
             }
         }
     }
+    // the protocol-parameterised login entry points (hand-written dispatch over the per-version readers)
+    crate::c14::protocol_readers_under_schedules(&corpus, &mut c, tier, &|input: &[u8]| {
+        let n = input.len();
+        if n <= 9 {
+            let mut v = compositions(n, 0);
+            v.extend(compositions(n, 1));
+            v
+        } else {
+            let mut v = vec![Schedule::whole(), Schedule::single_bytes(n, 0), Schedule::single_bytes(n, 1), Schedule { steps: vec![(1, n / 2), (2, n)] }];
+            // a cut after every one of the first 48 bytes
+            for cut in 1..n.min(48) {
+                v.push(Schedule { steps: vec![(0, cut), (1, n)] });
+            }
+            v
+        }
+    });
     c.finish()
 }
 
